@@ -261,7 +261,7 @@ def k3(ctx):
     orient.append(("explain", ok))
     ctx.check(ok, "orientation:explain", "explain_equivalence asks for l2.m ; l1.m^-1 and chains the symmetry proof after the find-proof of side 1",
               "explain_equivalence queries the symmetry %s but chains its proof after the find-proof of %s: the inverted map must come from the side whose proof is chained" % (role_str(e.role_of_operand(pcs[0].args[1])), role_str(srcpai)), where_of(e, pcs[0].bb))
-    ctx.floor("orientation sites", sites, 3)
+    ctx.floor("orientation sites", sites, 2)
     ctx.check(len({o for _, o in orient}) == 1, "siblings-agree", "all orientation sites follow the same convention", "the orientation sites contradict each other: %s" % orient)
 
 
